@@ -1,12 +1,15 @@
 """C02 - child cells exactly tile their parent cell in every partition."""
 from ..report import AnalysisError
 from . import _partition
+from . import c03
 
 
 def run(ctx):
     n, stats = _partition.feed(ctx, ("R02-",), rename={"R03-ALIAS": "R02-ALIAS"})
     ctx.count("R02 (tiling obligations from abstract make_children runs)", n, 2000)
     ctx.count("R02 abstract runs", stats["paths"], 200)
+    # the children of a cell are exactly the cells of its (latest) split
+    ctx.attempt("R02-OWN", "PyXAB/partition/Node.py", "P_node.update_children", "children replaced", c03.check_update_children, ctx, "R02-OWN")
     return dict(
         explanation=(
             "One-step abstract interpretation (E5) of every partition class's make_children, read from /repo's "
@@ -16,7 +19,8 @@ def run(ctx):
             "After each run the children are checked against the definition of an exact tiling over terms: "
             "arity, containment, exact grid cover (union = parent, interiors disjoint), boundaries shared as the "
             "same computed value (bit-identical) and outer faces being the parent's own atoms, equal side lengths "
-            "for the equal-size classes, centre representative, no in-place modification of the parent's box. A "
+            "for the equal-size classes, centre representative, no in-place modification of the parent's box; "
+            "P_node.update_children replaces the child list by exactly the cells it is given (R02-OWN). A "
             "second expansion of a cousin cell on the same partition object checks that the geometry does not "
             "depend on state left behind by earlier expansions. Decided part: the one-step tiling lemma for all "
             "real boxes and all RNG draws within the K,d range; 'leaves of any tree tile the domain' follows by "
